@@ -106,7 +106,13 @@ def simp(t, facts, memo=None):
     k = id(t)
     if k in memo:
         return memo[k][1]
+    if not t:
+        return t
     h = t[0]
+    if not isinstance(h, str):
+        r = tuple(simp(z, facts, memo) if isinstance(z, tuple) else z for z in t)
+        memo[k] = (t, r)
+        return r
     if h in ("c", "arg", "pre", "bot"):
         r = t
     elif h == "gamma":
